@@ -105,7 +105,9 @@ def h_infer_type(a: int, b: int) -> bool:
 
 
 # ------------------------------------------------------------------ K03b
-DOCS = {"none": None, "one": "'''Doc.'''", "multi": "'''\n    Doc line.\n\n      indented\n    last\n    '''", "lead": "'''\n\n    Doc.\n    '''"}
+DOCS = {"none": None, "one": "'''Doc.'''", "multi": "'''\n    Doc line.\n\n      indented\n    last\n    '''", "lead": "'''\n\n    Doc.\n    '''",
+        # layouts on which inspect.cleandoc differs from a plain strip(): trailing blanks, an over-indented first text line, closing quotes deeper than the text
+        "trail": "'''Doc. \t'''", "overindent": "'''\n        Doc over.\n    later\n    '''", "deepclose": "'''Doc.\n    more\n            '''"}
 DOCKEYS = list(DOCS)
 
 
@@ -255,19 +257,19 @@ NK = len(SKEYS)
     parts=lambda: [[sc, i] for sc in range(2) for i in range(NK)], timeout=(240, 1800), cls="E", tracing="concrete-after-choice", twin="first",
     code=["pydoctor.astbuilder.ModuleVistor.visit_If/visit_ClassDef/_handleFunctionDef/_handleOldSchoolMethodDecoration/_handlePropertyDef/_handleAssignment*/visit_Expr/visit_Try/visit_With/visit_For",
           "pydoctor.astutils.get_docstring_node/extract_docstring/NodeVisitor.get_children", "pydoctor.model.is_exception/defaultPostProcess"],
-    bounds={"quick": "two-statement programs: 17 statement kinds (def, async def, exception class with a mixin listed after the builtin exception, exception class through an intermediate class, classmethod, staticmethod, property, old-style staticmethod()/classmethod() wrapping, assignment, annotated assignment, annotation only, class, exception class, def nested in a def, tuple assignment, class with nested class) for each of the two statements x 8 wrappers of the first (plain, if, try, with, for, `if __name__ == '__main__'`, `if __name__ != '__main__'`, `if not (__name__ == '__main__')`) x 4 docstring layouts x module / class scope",
+    bounds={"quick": "two-statement programs: 17 statement kinds (def, async def, exception class with a mixin listed after the builtin exception, exception class through an intermediate class, classmethod, staticmethod, property, old-style staticmethod()/classmethod() wrapping, assignment, annotated assignment, annotation only, class, exception class, def nested in a def, tuple assignment, class with nested class) for each of the two statements x 8 wrappers of the first (plain, if, try, with, for, `if __name__ == '__main__'`, `if __name__ != '__main__'`, `if not (__name__ == '__main__')`) x 7 docstring layouts (none, one line, multi-line with relative indentation, leading blank line, trailing blanks, over-indented first text line, closing quotes deeper than the text) x module / class scope",
             "thorough": "same"},
     outside="multi-module packages (C04/C07), metaclasses, __slots__, conditional redefinition (C02), except/finally bodies",
 )
 def h_definitions(k2: int, w1: int, doc: int) -> bool:
     """
-    pre: 0 <= k2 < NK and 0 <= w1 <= 7 and 0 <= doc <= 3
+    pre: 0 <= k2 < NK and 0 <= w1 <= 7 and 0 <= doc <= 6
     post: _
     """
     sc, k1 = PART if PART is not None else [1, 0]
     k2 = pick(k2, 0, NK - 1)
     w1 = pick(w1, 0, 7)
-    doc = pick(doc, 0, 3)
+    doc = pick(doc, 0, 6)
     with NoTracing():
         src = build_program(["module", "class"][sc], SKEYS[k1], SKEYS[k2], WKEYS[w1], DOCKEYS[doc])
         if src is None:
